@@ -84,6 +84,31 @@ def run(tier, seed, replay=None):
                      {"id": 2, "reqs": [{"op": "OPEN_FILE", "path": "/%s/game" % prefix}, {"op": "READ_FILE_CRITICAL", "limit": 8192, "off": 32768},
                                         {"op": "READ_FILE_CRITICAL", "limit": 65536, "off": 0}, {"op": "READ_FILE_CRITICAL", "limit": 4096, "off": 10 ** 7}]}]
             worlds.append({"name": "viso-" + vk, "aw": False, "nodes": nodes, "views": [{"vk": vk, "p": ["game"]}], "conns": conns})
+        # (c') decrypted views: a redump image with its key beside it, a 3k3y image with its embedded key
+        KEY = "a0a1a2a3a4a5a6a7a8a9aaabacadaeaf"
+        S = 2048
+        for kind in ("redump", "3k3y-enc"):
+            nsec = 24
+            img = srv.fnode(["PS3ISO", "g.iso"], nsec * S, cid="c02_enc_" + kind, mtime=t + 11)
+            img["enc"] = {"kind": kind, "key": KEY, "regions": [[0, 3], [9, 12], [20, 24]], "sectors": nsec, "extraLen": 0, "plainName": "c02_plain_" + kind}
+            img["vcid"] = "c02_plain_" + kind + ("~masked" if kind != "redump" else "")
+            nodes = [srv.dnode(["PS3ISO"], t + 10), img]
+            if kind == "redump":
+                k = srv.fnode(["PS3ISO", "g.dkey"], 32, cid="c02_dkey", mtime=t + 12)
+                k["raw"] = KEY.encode().hex()
+                nodes.append(k)
+            pts = sorted({0, 1, 0xF70, 0x1070, 3 * S - 1, 3 * S, 3 * S + 1, 4 * S, 4 * S + 5, 8 * S, 9 * S - 1, 9 * S, 9 * S + 1, 12 * S, 13 * S, 19 * S + 2047, 20 * S,
+                          nsec * S - 1, nsec * S, nsec * S + 1})
+            lims = [1, 100, 511, 512, 2047, 2048, 2049, 3000, 4096, 6000, 65536]
+            pairs = [(o, l) for o in pts for l in lims]
+            if not full:
+                pairs = rng.sample(pairs, 60) + [(4 * S, 100), (6 * S, 3000), (12 * S, 2049)]
+            reqs = [{"op": "OPEN_FILE", "path": "/PS3ISO/g.iso"}]
+            for o, l in pairs:
+                reqs.append({"op": "READ_FILE", "limit": l, "off": o})
+                if o + l <= nsec * S:
+                    reqs.append({"op": "READ_FILE_CRITICAL", "limit": l, "off": o})
+            worlds.append({"name": "decrypted-" + kind, "aw": False, "nodes": nodes, "conns": [{"id": 1, "reqs": reqs}]})
         # (d) random interleavings
         for i in range(10 if not full else 80):
             nodes_r = srv.basic_world(rng, big=(i % 5 == 0))
@@ -91,7 +116,8 @@ def run(tier, seed, replay=None):
                            "conns": [{"id": 1, "reqs": read_heavy(rng, nodes_r, 40)}]})
         srv.run_and_validate(ctx, worlds, rep)
         rep.cov["rule"] = ("files of boundary sizes x (offset, limit) grid around size / 2 KiB / 64 KiB boundaries x both read commands; "
-                           "sparse 4 GiB+5 file; generated images (plain and PS3); interleaved other requests; "
+                           "sparse 4 GiB+5 file; generated images (plain and PS3); decrypted views (redump + key file, 3k3y) around sector and region "
+                           "boundaries; interleaved other requests; "
                            "distinct_nontrivial = worlds accepted")
         rep.cov["distinct_nontrivial"] = rep.cov["traces_validated_against_impl"]
         rep.cov["samples"] = [worlds[0]["conns"][0]["reqs"][:4], worlds[len(SIZES)]["conns"][0]["reqs"][:4]]
